@@ -272,7 +272,7 @@ pub fn compare(expected: &Value, out: &[Out], window: Option<(chrono::DateTime<c
                 return None; // wording and extent of the marker are not compared
             }
             "<date>" => {
-                if rest.starts_with("{ERROR: ") {
+                if rest.starts_with("{ERROR: ") && !(i < toks.len() && toks[i] == "<fmt>" && toks[i..].iter().take_while(|t| **t != "</fmt>").any(|t| *t == "<ERR>")) {
                     return Some(json!({"what": "error marker where the specification renders a date", "matched": shown, "rest": rest}));
                 }
                 // the format and the zone follow as tokens: <fmt> chars </fmt> <utc>|<local>
@@ -280,9 +280,18 @@ pub fn compare(expected: &Value, out: &[Out], window: Option<(chrono::DateTime<c
                 let mut fmt = String::new();
                 if j < toks.len() && toks[j] == "<fmt>" {
                     j += 1;
+                    let mut has_err = false;
                     while j < toks.len() && toks[j] != "</fmt>" {
+                        has_err |= toks[j] == "<ERR>";
                         fmt.push_str(&sub(toks[j]));
                         j += 1;
+                    }
+                    if has_err {
+                        // the format itself contains an error marker (a syntax error inside the argument): the
+                        // marker must be visible somewhere in the date's text; its wording is not compared
+                        return if rest.contains("{ERROR: ") { None } else {
+                            Some(json!({"what": "error inside a date format is not surfaced", "matched": shown, "rest": rest}))
+                        };
                     }
                     let utc = toks.get(j + 1) == Some(&"<utc>");
                     i = j + 2;
